@@ -302,6 +302,32 @@ for _a in range(3):
             CLASS_INFO[40 + 3 * _a + _b] = ("R_%d%d" % (_a, _b), [40 + 3 * _a + _b, 4], [2])
 for _a in (1, 2):
     CLASS_INFO[20 + _a] = ("P_%d" % _a, [20 + _a, 2], [])
+# objects that PASS isinstance(value, klass) although type(value) is not a subclass of klass (implementation-only
+# `#` streams; the Lean lattice assumes isinstance = PyObject_TypeCheck).  cid 60 = D, a class whose metaclass
+# __instancecheck__ is structural; cid -> (kind, claimed class cid, adapter registered from the REAL type to the
+# claimed class, flavour of the object, flavour of its adapter).  kind "meta": D's __instancecheck__ says yes;
+# kind "proxy": the object's __class__ is a property returning P (cid 2)
+CLAIMING = {61: ("meta", 60, True, 0, 0), 62: ("meta", 60, False, 0, 0), 63: ("proxy", 2, True, 0, 0),
+            64: ("proxy", 2, False, 0, 0), 65: ("meta", 60, True, 1, 0), 66: ("meta", 60, True, 0, 2),
+            67: ("proxy", 2, True, 2, 0), 68: ("proxy", 2, True, 0, 1), 69: ("meta", 60, False, 1, 0),
+            70: ("proxy", 2, False, 2, 0)}
+CLASS_INFO[60] = ("D", [60], [])
+for _c, _k in CLAIMING.items():
+    CLASS_INFO[_c] = ("%s%d" % (_k[0].capitalize(), _c), [_c], [_k[1]] if _k[2] else [])
+
+
+def claim_name(cid):
+    """Name of the value class of a claiming object, for signatures."""
+    kind, _, adapter, own, ad = CLAIMING[cid]
+    return "%s%s%s" % ({"meta": "metaclass-instancecheck", "proxy": "class-property-proxy"}[kind],
+                       "+adapter" if adapter else "+no-adapter",
+                       "" if not (own or ad) else ":object-%s:adapter-%s" % (FLAVOURS[own], FLAVOURS[ad]))
+
+
+def claiming_values(cids=None):
+    """`inst` terms of the claiming objects: (inst cid (mro) (adapts-to) oid (claims klass))."""
+    return ["(inst %d (%d) (%s) %d (claims %d))" % (c, c, CLAIMING[c][1] if CLAIMING[c][2] else "", c, CLAIMING[c][1])
+            for c in sorted(CLAIMING) if cids is None or c in cids]
 
 
 def flavoured(cls, flavour, name):
@@ -320,6 +346,8 @@ def inst_flavours(cid):
         return (cid - 40) // 3, (cid - 40) % 3
     if cid in (21, 22):
         return cid - 20, 0
+    if cid in CLAIMING:
+        return CLAIMING[cid][3], CLAIMING[cid][4]
     return 0, 0
 
 TY_NAMES = ["str", "int", "float", "complex", "bool", "bytes", "list", "tuple", "dict", "function",
@@ -407,8 +435,36 @@ def world():
     w.plain = {}
     w.badeq = {}
     w.insts = {}
+    _claiming_classes(w, P, r_to_p, register_factory)
     _WORLD = w
     return w
+
+
+def _claiming_classes(w, P, r_to_p, register_factory):
+    """The classes of CLAIMING (cids 60-70): isinstance(value, klass) holds although type(value) is unrelated to
+    klass; where CLAIMING says so the adapter factory of R is registered from the real type to the claimed class."""
+    class DuckMeta(type):
+        def __instancecheck__(cls, obj):
+            return getattr(type(obj), "claims_d", False) or type.__instancecheck__(cls, obj)
+
+    class D(metaclass=DuckMeta):
+        def __repr__(self):
+            return "<D>"
+
+    w.classes[60] = D
+    for cid, (kind, target, adapter, own, ad) in CLAIMING.items():
+        name = CLASS_INFO[cid][0]
+        ns = {"__repr__": (lambda n: lambda self: "<%s>" % n)(name), "adapter_flavour": ad}
+        if kind == "meta":
+            ns["claims_d"] = True
+        else:
+            ns["__class__"] = property(lambda self: P)
+        c = type(name, (), ns)
+        if own:
+            c = flavoured(c, own, name)
+        w.classes[cid] = c
+        if adapter:
+            register_factory(r_to_p, c, w.classes[target])
 
 
 def falsy_mode(key):
@@ -557,6 +613,8 @@ def build_value(t, ctx):
         return [build_value(x, ctx) for x in t[1:]]
     if h == "st":          # a set (implementation-only streams: the Lean driver has no such term)
         return set(build_value(x, ctx) for x in t[1:])
+    if h == "dd":          # a dict given by (key value) pairs (implementation-only streams)
+        return dict((build_value(k, ctx), build_value(v, ctx)) for k, v in t[1:])
     raise ValueError("unknown value term " + show_sexp(t))
 
 
@@ -756,6 +814,10 @@ def _build_with(t, ctx, cls):
         return T.Dict()
     if h == "Set":
         return T.Set()
+    if h == "SetOf":
+        return T.Set(_inner(t[1], ctx))
+    if h == "DictOf":
+        return T.Dict(_inner(t[1], ctx), _inner(t[2], ctx))
     if h == "Supports":
         return T.Supports(build_type(t[1], ctx), allow_none=t[2] == "1")
     if h == "AdaptsTo":
@@ -766,6 +828,15 @@ def _build_with(t, ctx, cls):
         return H.TraitCastType(build_type(t[1], ctx))
     if h == "InstanceH":
         return H.TraitInstance(build_type(t[1], ctx), allow_none=t[2] == "1")
+    if h == "InstanceHF":
+        # the legacy handler with a FORWARD REFERENCE: (InstanceHF allow_none 0) names the class with module=...,
+        # (InstanceHF allow_none 1) with a dotted name
+        if t[2] == "1":
+            return H.TraitInstance(__name__ + ".FwdP", allow_none=t[1] == "1")
+        return H.TraitInstance("FwdP", allow_none=t[1] == "1", module=__name__)
+    if h == "Clone":
+        # CLONE BY CALL: T(allow_none=b) = T.clone(allow_none=b).as_ctrait() (TraitType.__call__); a CTrait
+        return build_trait(t[1], ctx)(allow_none=t[2] == "1")
     if h == "FunctionH":
         return H.TraitFunction(FUNCS[int(t[1])])
     if h == "EnumH":
